@@ -1264,3 +1264,62 @@ Lemma do_save_exported_no_compaction_proved :
   ~ In EfCompactionScheduled (do_save_run true do_save_steps) /\
   ~ In EfRecorded (do_save_run true do_save_steps).
 Proof. vm_compute. split; intros H; repeat (destruct H as [H|H]; [discriminate|]); exact H. Qed.
+
+(* ------------------------------------------------------------------ *)
+(* on-disk state machines *)
+
+(* concurrentSave records a snapshot only at an index the user state machine is synced up to *)
+Lemma concurrent_save_synced_covers_snapshot_proved : forall ip isy synced,
+  ip <= isy ->
+  match concurrent_save rsm_concurrent_save_steps ip isy synced None None with
+  | (sy, Some i) => i <= sy
+  | (_, None) => True
+  end.
+Proof.
+  intros ip isy synced H. unfold rsm_concurrent_save_steps. cbn [concurrent_save].
+  unfold rsm_sync, rsm_sync_guards. cbn [existsb sguard_fires orb]. lia.
+Qed.
+
+Definition oinv (st : ostate) : Prop := os_snap st <= os_synced st.
+
+Lemma odsm_step_inv : forall st e st', oinv st -> odsm_step st e = (st', 0) -> oinv st'.
+Proof.
+  intros st e st' I H. unfold oinv in *. destruct e; cbn [odsm_step] in H.
+  - injection H as <-. exact I.
+  - injection H as <-. cbn. lia.
+  - destruct (os_synced st <? i) eqn:L; [injection H as _ H; discriminate|].
+    apply N.ltb_ge in L. injection H as <-. cbn. lia.
+  - destruct (r <? os_snap st) eqn:L; [injection H as _ H; discriminate|].
+    apply N.ltb_ge in L. injection H as <-. cbn. lia.
+  - injection H as _ H. discriminate.
+Qed.
+
+(* an accepted run: at every instant (every prefix) the recorded snapshot index is at most
+   the synced index, so a power cut at that instant reopens the state machine at or above
+   every recorded snapshot: nothing that was reported applied and is covered by a snapshot
+   (hence possibly compacted away) is lost *)
+Lemma odsm_run_prefix_inv : forall evs st pos stf p,
+  oinv st -> odsm_run st pos evs = (stf, p, 0) ->
+  forall n, exists stn pn, odsm_run st pos (firstn n evs) = (stn, pn, 0) /\ oinv stn.
+Proof.
+  induction evs as [|e evs IH]; intros st pos stf p I H n.
+  - rewrite firstn_nil. exists st, pos. split; [reflexivity|exact I].
+  - destruct n as [|n]; [exists st, pos; split; [reflexivity|exact I]|].
+    cbn [odsm_run] in H. cbn [firstn odsm_run].
+    destruct (odsm_step st e) as [st' c] eqn:S.
+    destruct (c =? 0) eqn:C.
+    + apply N.eqb_eq in C. subst c.
+      apply (IH st' (pos + 1) stf p (odsm_step_inv _ _ _ I S) H n).
+    + injection H as _ _ Hc. apply N.eqb_neq in C. congruence.
+Qed.
+
+Lemma odsm_ok_snapshot_covered_proved : forall evs,
+  odsm_ok evs = true ->
+  forall n, exists stn pn, odsm_run (mkOS 0 0) 0 (firstn n evs) = (stn, pn, 0) /\
+                           os_snap stn <= os_synced stn.
+Proof.
+  intros evs H n. unfold odsm_ok in H.
+  destruct (odsm_run (mkOS 0 0) 0 evs) as [[stf p] c] eqn:R.
+  apply N.eqb_eq in H. subst c.
+  apply (odsm_run_prefix_inv evs (mkOS 0 0) 0 stf p); [unfold oinv; cbn; lia|exact R].
+Qed.
